@@ -14,14 +14,19 @@ package main
 //   pubstream <layer> <R> <META> <FROM>                   layer ∈ bp|daemon|grpc
 //   chaininfo|identity <layer> <R> <META>                 layer ∈ bp|daemon|grpc
 //   pstatus  <layer> <R> <META> <CONN>                    layer ∈ bp|daemon|grpc
+//   http <PREFIX> <EP>     the real public HTTP handler (handler/http) over the production REST listener on loopback;
+//                          PREFIX ∈ none|known|unknown|malformed|odd|huge, EP ∈ latest|info|health|chains|round:<class>
 // META = nil | <id>/<hash>/<ver>, id ∈ absent|known|unknown|malformed, hash ∈ absent|known|unknown|malformed, ver ∈ none|ok|bad
 // result: <outcome> bplock=… hlock=… ci=… pb=…     (streams: outcome stream:<beacons received>)
 
 import (
 	"context"
 	"fmt"
+	"encoding/hex"
+	"errors"
 	"io"
 	"net"
+	"net/http"
 	"os"
 	"strings"
 	"sync"
@@ -31,11 +36,13 @@ import (
 	"google.golang.org/grpc"
 	"google.golang.org/grpc/codes"
 	"google.golang.org/grpc/credentials/insecure"
+	"google.golang.org/grpc/peer"
 	"google.golang.org/grpc/status"
 
 	"github.com/drand/drand/v2/common"
 	chain2 "github.com/drand/drand/v2/common/chain"
 	"github.com/drand/drand/v2/common/key"
+	dhttp "github.com/drand/drand/v2/handler/http"
 	"github.com/drand/drand/v2/internal/chain"
 	"github.com/drand/drand/v2/internal/chain/beacon"
 	"github.com/drand/drand/v2/internal/chain/boltdb"
@@ -69,6 +76,8 @@ type c14BeaconWorld struct {
 	bp      *core.BeaconProcess
 	dd      *core.DrandDaemon
 	gw      *dnet.PrivateGateway
+	rest    *dnet.PublicGateway
+	hcancel context.CancelFunc
 	conn    *grpc.ClientConn
 	beacons []*common.Beacon
 	hash    []byte
@@ -85,6 +94,12 @@ func (b *c14BeaconWorld) close() {
 	}
 	if b.gw != nil {
 		b.gw.StopAll(context.Background())
+	}
+	if b.rest != nil {
+		b.hcancel()
+		sctx, c := context.WithTimeout(context.Background(), time.Second)
+		b.rest.StopAll(sctx)
+		c()
 	}
 	done := make(chan struct{})
 	go func() {
@@ -167,7 +182,72 @@ func newC14BeaconWorld(w *c14World, phase string) *c14BeaconWorld {
 	mustOK("NewGRPCPrivateGateway", err)
 	b.gw.StartAll()
 	b.bp.VerifSetGateway(b.gw)
+	// the public HTTP API as the daemon assembles it: handler/http in front of the beacon process, production REST listener
+	hctx, hcancel := context.WithCancel(context.Background())
+	b.hcancel = hcancel
+	hh, err := dhttp.New(hctx, "verif")
+	mustOK("dhttp.New", err)
+	if phase != "nodkg" { // AddBeaconHandler runs once the group exists
+		bh := hh.RegisterNewBeaconHandler(core.Proxy(b.bp), hex.EncodeToString(b.hash))
+		hh.RegisterDefaultBeaconHandler(bh)
+	}
+	b.rest, err = dnet.NewRESTPublicGateway(hctx, "127.0.0.1:0", hh.GetHTTPHandler())
+	mustOK("NewRESTPublicGateway", err)
+	b.rest.StartAll()
 	return b
+}
+
+func (b *c14BeaconWorld) httpPath(prefix, ep string) string {
+	p := ""
+	switch prefix {
+	case "none":
+	case "known":
+		p = "/" + hex.EncodeToString(b.hash)
+	case "unknown":
+		p = "/" + hex.EncodeToString(b.w.junk(32))
+	case "malformed":
+		p = "/zz"
+	case "odd":
+		p = "/abc"
+	case "huge":
+		p = "/" + strings.Repeat("ab", 4096)
+	default:
+		panic("bad http prefix " + prefix)
+	}
+	switch {
+	case ep == "latest":
+		return p + "/public/latest"
+	case ep == "info" || ep == "health" || ep == "chains":
+		return p + "/" + ep
+	case strings.HasPrefix(ep, "round:"):
+		r := map[string]string{"zero": "0", "one": "1", "last": fmt.Sprint(c14Stored), "beyond": fmt.Sprint(c14Stored + 2),
+			"far": "4611686018427387904", "max": "18446744073709551615", "overflow": "18446744073709551616", "neg": "-1", "alpha": "latest%00x"}[ep[6:]]
+		if r == "" {
+			panic("bad http round class " + ep)
+		}
+		return p + "/public/" + r
+	}
+	panic("bad http endpoint " + ep)
+}
+
+// callHTTP: ok = 2xx, err = any other status, contained = the connection was dropped without a response (net/http recovered
+// a handler panic), hang = no response within watchdog + confirmation window
+func (b *c14BeaconWorld) callHTTP(prefix, ep string) (string, string) {
+	cl := &http.Client{Timeout: c14Watchdog + c14Confirm, Transport: &http.Transport{DisableKeepAlives: true}}
+	resp, err := cl.Get("http://" + b.rest.Listener.Addr() + b.httpPath(prefix, ep))
+	if err != nil {
+		var ne net.Error
+		if errors.As(err, &ne) && ne.Timeout() {
+			return "hang", err.Error()
+		}
+		return "contained", err.Error()
+	}
+	defer resp.Body.Close()
+	_, _ = io.Copy(io.Discard, resp.Body)
+	if resp.StatusCode >= 200 && resp.StatusCode < 300 {
+		return "ok", ""
+	}
+	return "err", resp.Status
 }
 
 func (b *c14BeaconWorld) grpcConn() *grpc.ClientConn {
@@ -337,7 +417,10 @@ const c14StreamIdle = 150 * time.Millisecond
 // guardedStream runs a server-streaming handler: lets it run for a quiet period, then cancels its context and expects it to
 // return. Outcome: err (returned by itself with an error) | stream:<n> (served n beacons until cancelled) | panic:… | contained | hang.
 func guardedStream(f func(ctx context.Context) error, count func() int, remote bool) (string, string) {
-	ctx, cancel := context.WithCancel(context.Background())
+	// in-process streams get a peer address of their own: SyncChain keys its store callback by the remote address, and the
+	// HTTP handler's in-process watcher already uses the empty one
+	base := peer.NewContext(context.Background(), &peer.Peer{Addr: &net.TCPAddr{IP: net.IPv4(198, 51, 100, 7), Port: 4711}})
+	ctx, cancel := context.WithCancel(base)
 	defer cancel()
 	ch := make(chan [2]string, 1)
 	go func() {
@@ -633,10 +716,13 @@ func (b *c14BeaconWorld) tarpitStatus(layer string, k int) string {
 		})
 		done <- o
 	}()
-	time.Sleep(300 * time.Millisecond)
+	// wait until the handler is inside its critical section (on a loaded machine the request may take a while to arrive)
 	held := "free"
-	if !b.bp.VerifStateLockFree() {
-		held = "rheld"
+	for i := 0; i < 150 && held == "free"; i++ {
+		time.Sleep(20 * time.Millisecond)
+		if !b.bp.VerifStateLockFree() {
+			held = "rheld"
+		}
 	}
 	// a writer arrives (StopBeacon, newBeacon, storeDKGOutput … take bp.state.Lock)
 	wdone := make(chan struct{})
@@ -675,6 +761,23 @@ func beaconOp(w *c14World, f []string) (string, bool) {
 		w.bw = newC14BeaconWorld(w, f[1])
 		return "ok", true
 	case "partial", "sync", "pubstream", "pubrand", "chaininfo", "identity", "pstatus":
+	case "http":
+		if w.bw == nil {
+			return "bad-op no bphase", true
+		}
+		if w.bw.wedged {
+			return "wedged", true
+		}
+		o, d := w.bw.callHTTP(f[1], f[2])
+		w.bw.nops++
+		pr := w.bw.probes("bp", o != "err" || w.bw.nops%c14ProbeEvery == 0)
+		if o == "hang" || strings.Contains(pr, "hang") || strings.Contains(pr, "held") {
+			w.bw.wedged = true
+		}
+		if verbose && d != "" {
+			return o + " " + pr + " #" + strings.ReplaceAll(d, "\n", " "), true
+		}
+		return o + " " + pr, true
 	default:
 		return "", false
 	}
